@@ -35,6 +35,8 @@ pub fn contig_strategy(k: usize) -> BoxedStrategy<Vec<Rec>> {
             5 => proptest::collection::vec(0u8..4, k..(4 * k + 20)).prop_map(|v| Rec { ops: vec![SeqOp::Rand(v)], lower: vec![], force_len: None, n_from_end: None }),
             3 => gen::rec_strategy(k),
             2 => proptest::collection::vec(0u8..4, 1..k).prop_map(|v| Rec { ops: vec![SeqOp::Rand(v)], lower: vec![], force_len: None, n_from_end: None }),
+            // a record without any base (needletail accepts it; the shortest contig "shorter than k")
+            1 => Just(Rec { ops: vec![SeqOp::Rand(vec![])], lower: vec![], force_len: None, n_from_end: None }),
         ],
         1..5,
     )
@@ -260,6 +262,7 @@ fn check(c: &Case, ctx: &Ctx) -> Outcome {
         if plain != e.seqs { cl.push("mask_changes_output"); }
         if c.repeat_mask && plain != model_map(&m.reference, &e.dicts, c.k, c.rc, c.ambig_mask, false) { cl.push("repeat_mask_effective"); }
         if m.reference.len() >= 2 && m.reference.iter().any(|r| r.len() < c.k) { cl.push("short_contig"); }
+        if m.reference.iter().any(|r| r.is_empty()) { cl.push("empty_contig"); }
         if m.reference.iter().any(|r| r.iter().any(|b| b.is_ascii_lowercase())) { cl.push("lower_case_reference"); }
         if m.reference.iter().any(|r| r.iter().any(|b| matches!(b, b'N' | b'n'))) { cl.push("N_in_reference"); }
         if e.seqs.iter().any(|s| s.iter().any(|b| model::sym_is_ambig(*b) && *b != b'N')) { cl.push("ambiguity_codes_in_output"); }
